@@ -45,15 +45,15 @@ def run(ctx):
 
 
 def wide(ctx):
+    """cross-reference over the other printers: informational only (the C-family backends are decided under C35, the
+    str() printer is no backend); findings here are turned into notes and never change the verdict"""
     for rel, cn, lang in WIDE:
         before = len(ctx.findings)
         judge_printer(ctx, 'R1', rel, cn, lang)
-        # LokiStringifyMapper is not a backend: report as notes only
-        if cn == 'LokiStringifyMapper':
-            extra = ctx.findings[before:]
-            del ctx.findings[before:]
-            for f in extra:
-                ctx.note(f'(informational, str() printer) {f.construct}: {f.message}')
+        extra = ctx.findings[before:]
+        del ctx.findings[before:]
+        for f in extra:
+            ctx.note(f'(informational, wide domain) {f.construct}: {f.message}')
 
 
 F = 'loki/expression/mappers.py'
@@ -77,8 +77,8 @@ MUTANTS = [
     Mutant('paren-node-not-parenthesised', F,
            "return self.parenthesize(self.map_quotient(expr, PREC_NONE, *args, **kwargs))",
            "return self.map_quotient(expr, enclosing_prec, *args, **kwargs)", expect=('R1', 'PDiv')),
-    Mutant('repair-f-den', 'loki/backend/fgen.py', "    multiplicative_primitives = (FloorDiv, Remainder)\n",
-           "    multiplicative_primitives = (FloorDiv, Remainder, Product, Quotient)\n", expect=None),
+    Mutant('f-den-primitives-removed', 'loki/backend/fgen.py', "    multiplicative_primitives = (FloorDiv, Remainder, Product, Quotient)\n",
+           "    multiplicative_primitives = (FloorDiv, Remainder)\n", expect=('R1', 'FCodeMapper:Quotient.den<-Product')),
     Mutant('neutral-reorder', F, "    map_range_index = map_range\n    map_loop_range = map_range\n",
-           "    map_loop_range = map_range\n    map_range_index = map_range\n", expect=None),
+           "    map_loop_range = map_range\n    map_range_index = map_range\n", count=2, expect=None),
 ]
